@@ -193,7 +193,13 @@ func (s *Spec) Render(rng *rand.Rand) string {
 	if s.Exception {
 		sb.WriteString("@@")
 	}
-	sb.WriteString(s.Pattern)
+	pat := s.Pattern
+	if rng != nil && len(pat) > 2 && strings.HasSuffix(pat, "^") && rng.Intn(16) == 0 {
+		// "example.org/*" is the documented alternative spelling of
+		// "example.org^" (the parser rewrites it); both are the same rule.
+		pat = pat[:len(pat)-1] + "/*"
+	}
+	sb.WriteString(pat)
 	if len(mods) > 0 {
 		sb.WriteByte('$')
 		sb.WriteString(strings.Join(mods, ","))
